@@ -5,7 +5,7 @@ import json, collections
 def sig(rec, clauses):
     return {"kind": rec.get("k"), "method": rec.get("method") or (rec.get("m") or "").split(".")[0],
             "side": rec.get("side"), "vt": rec.get("vt", "real"), "prec": rec.get("prec"), "family": rec.get("kind"),
-            "reuse": rec.get("reuse"), "var": rec.get("var")}
+            "reuse": rec.get("reuse"), "var": rec.get("var"), "delta": rec.get("delta"), "L": rec.get("L")}
 
 
 def run(c):
@@ -56,6 +56,13 @@ def run(c):
         if m3["violated"]:
             c.note("KrylovProgModel3 violated at model level: %s" % m3["violated"])
 
+    # the augmentation ring of LGMRES (slot = n_outer mod K): distinct slots, last K corrections, oldest first;
+    # the variant slot = outer_v.size() mod K is run as a demonstration that the invariants are not vacuous
+    for kk in (2, 3):
+        c.tlc_model("LgmresRing", constants={"K": kk, "Cycles": 3 * kk + 3})
+    bad = c.tlc_model("LgmresRing", constants={"K": 3, "Rule": '"size"'}, coverage=False)
+    c.note("LgmresRing with slot = size mod K: %s" % (bad["violated"] or "no violation (unexpected)"))
+
     # ---------------------------------------------------------------- code
     rk = c.build("record_krylov", ["record_krylov.cpp"], timeout=1200)
 
@@ -104,7 +111,7 @@ def run(c):
     for (mode, vt), o in zip(jobs, outs):
         recs = validate(o, "%s-%s" % (mode, vt), mode, chunk=400)
         for r in recs:
-            if r.get("k") in ("ref", "cgopt", "minres", "term"):
+            if r.get("k") in ("ref", "cgopt", "minres", "term", "delta"):
                 c.nontrivial.add((r["k"], vt, r.get("id"), r.get("method"), r.get("side")))
         if mode == "ref":
             rr = [r for r in recs if r.get("k") == "ref" and r.get("err")]
